@@ -198,6 +198,12 @@ def run_case(mod, spec, res, root, index, keep_sample=False):
         except Violation as err:
             res.add_violation(err.bucket, spec, str(err))
             return err
+        except BaseException as err:
+            # a stray tick of a repeating time-limit timer that fired while the first one was being handled
+            if type(err).__name__ == "_Timeout":
+                res.inconclusive += 1
+                return None
+            raise
         for lab in set(ctx.labels):
             res.labels[lab] += 1
         if ctx.nontrivial:
